@@ -16,7 +16,7 @@ PENDING = "check not built yet in this session (work in progress; see DESIGN.md 
 CHECKS = {
     "C03": dict(
         technique="semantic classification of schedule walkers (cursor start/step provenance) + vtable-resolved dispatch check + may-write frame of the Mantis mode switch",
-        text="Decides structural necessary conditions of 'decrypt inverts encrypt', not the algebra: every *_encrypt entry point and vtable slot 0 reaches only functions that walk the key schedule forward from entry 0, every *_decrypt entry point and slot 1 only functions that walk it backward from rounds-1 (including the scalar tails the 128-block test never executes); each walk starts at the right end and visits exactly `rounds` entries of the same object's rounds field; mantis_swap_modes writes exactly k0, k0prime and k1 (tweak and rounds preserved) and the parallel wrapper applies it to the object's own context. NOT decided: that the inverse S-boxes, inverse rounds and the alpha/k0' algebra are inverses (value facts).",
+        text="Decides structural necessary conditions of 'decrypt inverts encrypt', not the algebra: every *_encrypt entry point and vtable slot 0 reaches only functions that walk the key schedule forward from entry 0, every *_decrypt entry point and slot 1 only functions that walk it backward from rounds-1 (including the scalar tails the 128-block test never executes); each walk starts at the right end and visits exactly `rounds` entries of the same object's rounds field; by bit-granular copy propagation (bits are moved, never combined) every helper pair X / X_inverse (Mantis tweak permutation h and cell permutation P, scalar and vector copies) composes to the identity routing; every site that XORs the reflection constant into k1 applies the same eight constant bytes; mantis_swap_modes writes exactly k0, k0prime and k1 (tweak and rounds preserved) and the parallel wrapper applies it to the object's own context. NOT decided: that the inverse S-boxes, inverse rounds and the alpha/k0' algebra are inverses (value facts).",
         note=NOTE),
     "C04": dict(
         technique="typestate/dominance check of the shadow-tweak protocol + byte-range definite-initialisation of the stored tweak + must-store summaries + call-argument constants/identity along enumerated paths",
@@ -28,7 +28,7 @@ CHECKS = {
         note=NOTE + " Member-extent assumption: a helper handed the address of a struct member writes only inside that member (its own accesses are bounded by C09)."),
     "C06": dict(
         technique="sibling comparison of canonical effect/guard summaries across back ends (fields by name) + lane colour analysis of the CTR batch encryptors on -O3 IR + batch-discard reconciliation rule",
-        text="Value equality of the independently written vector round functions is not decided. Decided for every vtable slot of every cipher: the vector back ends' success-path guards, return constants, reject-before-write behaviour and written context fields agree with their generic sibling (a guard present in one and missing in another is reported at the deviant); every CTR batch encryptor writes keystream block b from counter lane b only; vector siblings of one parallel table read the same key-schedule fields. One genuine divergence is reported as known findings (D6, 11 functions): in the 4-/8-lane back ends set_key / set_tweaked_key / set_tweak discard the pre-computed batch without rewinding the lane counters, so after a mid-stream key or tweak change the next block is E(c+L) where the generic back end gives E(c+1) (replay findings/D6_ctr_rekey.c).",
+        text="Value equality of the independently written vector round functions is not decided. Decided for every vtable slot of every cipher: the vector back ends' success-path guards, return constants, reject-before-write behaviour and written context fields agree with their generic sibling (a guard present in one and missing in another is reported at the deviant); every CTR batch encryptor writes keystream block b from counter lane b only; vector siblings of one parallel table read the same key-schedule fields; scalar and vector copies of each permutation helper realise the same bit-routing table. One genuine divergence is reported as known findings (D6, 11 functions): in the 4-/8-lane back ends set_key / set_tweaked_key / set_tweak discard the pre-computed batch without rewinding the lane counters, so after a mid-stream key or tweak change the next block is E(c+L) where the generic back end gives E(c+1) (replay findings/D6_ctr_rekey.c).",
         note=NOTE + " No run-time probe override hook is needed: all back ends are analysed from source regardless of the host CPU."),
     "C07": dict(
         technique="path-by-path evaluation of the parallel loops (cursor deltas as linear forms) + byte/lane-granular may-dependency (colour) analysis of the vector ECB functions on -O3 IR + extent/parallel_size agreement",
@@ -52,7 +52,7 @@ CHECKS = {
         note=NOTE + " 'Bit-identical under another optimisation level' is claimed only in the sense that uninitialised reads are excluded."),
     "C12": dict(
         technique="compile witnesses over the configuration matrix (clang + gcc, override hook) + cross-configuration comparison of canonical effect/guard summaries (exact byte sets read/written per object, element-inner offsets, induction-variable ranges)",
-        text="Equality of values across the alternative implementations is NOT decided. Decided: every combination of the five platform switches compiles for all 18 units with clang and gcc (quick: shipped + a pairwise covering array; thorough: all 32); for every function that does not dispatch through a back-end table, its caller-visible summary - success-path guards, return constants, and per object the exact bytes written and the bytes read that it does not write itself - is identical to the shipped configuration's in every configuration where it exists, so a word-size-, alignment- or endian-specific branch that forgets part of an update, loops over the wrong extent or validates differently is reported; and every other property's rules run in each of those configurations (thorough: all 32).",
+        text="Equality of values across the alternative implementations is NOT decided. Decided: every combination of the five platform switches compiles for all 18 units with clang and gcc (quick: shipped + a pairwise covering array; thorough: all 32); for every function that does not dispatch through a back-end table, its caller-visible summary - success-path guards, return constants, and per object the exact bytes written and the bytes read that it does not write itself - is identical to the shipped configuration's in every configuration where it exists, so a word-size-, alignment- or endian-specific branch that forgets part of an update, loops over the wrong extent, validates differently or calls a different existing helper is reported; every pure bit-permutation helper has the same routing table in every configuration; and every other property's rules run in each of those configurations (thorough: all 32).",
         note=NOTE + " Uses the guarded hook in src/skinny-internal.h (RWEATHER_SKINNY_C_VERIF)."),
     "C13": dict(
         technique="CFG path enumeration of the init cascades over probe outcomes + dataflow from CPUID/XGETBV inline-asm outputs to the probe result checked against the architecture manual + mnemonic scan of the objects the repo's Makefile builds",
